@@ -393,8 +393,11 @@ class Explorer:
         """fresh real object, history replayed; returns (op, M, sp, last_deriv_index)"""
         op, M = self.fresh()
         sp = ()
+        self.chain = [M]  # the matrices of the derivation chain: caches of the ancestors live on inside derived operators
         for a in hist:
             op, M, sp, _ = self.step(op, M, sp, a)
+            if a.startswith("d:"):
+                self.chain.append(M)
         return op, M, sp
 
     def reference(self, hist, sp, q):
@@ -478,6 +481,10 @@ def run(case):
                 n = M.shape[-1]
                 ev = torch.linalg.eigvalsh(M)
                 distinct = bool(((ev[..., 1:] - ev[..., :-1]) > 1e-3 * ev[..., -1:]).all()) if n > 1 else True
+                for Mc_ in ex.chain[:-1]:  # (a Lanczos factor cached on an ancestor with a repeated eigenvalue is a compression by design)
+                    if Mc_.shape[-1] == Mc_.shape[-2] and Mc_.shape[-1] > 1:
+                        evc = torch.linalg.eigvalsh(Mc_)
+                        distinct = distinct and bool(((evc[..., 1:] - evc[..., :-1]) > 1e-3 * evc[..., -1:]).all())
                 pd_ok = bool((ev[..., 0] > 1e-6 * ev[..., -1]).all())
                 cond = (ev[..., -1] / ev[..., 0].clamp_min(1e-300)).max().item()
                 scale = max(1.0, M.abs().amax().item())
